@@ -18,6 +18,7 @@ import RbModel.Lemmas.GsubMultiMixed
 import RbModel.Lemmas.GsubLigFwd
 import RbModel.Lemmas.GsubLigFlags
 import RbModel.Lemmas.GsubLigMixed
+import RbModel.Lemmas.GsubCtxMixed
 
 namespace RbModel.Buf
 
@@ -1055,5 +1056,377 @@ theorem C06_fill_is_spec_rule (positions : List Nat) (s delta p : Nat) (hp : pos
 -- non-vacuity: a 1 → 4 expansion at sequence index 0 (buffer position 7): the three added glyphs sit at 8, 9, 10
 example : applyLookup.loop.fill ((0 + 1 + 3 : Nat) : Int) [7, 0, 0, 0, 12, 13] (0 + 1) (0 + 1 + 3 + 1) = .ok [7, 8, 9, 10, 12, 13] := by
   rfl
+
+end RbModel.Gsub
+
+/-! ## Part 7 — contextual substitution (GSUB types 5 and 6): matching and the nested-record loop refine the OpenType model
+
+  `Context*` / `ChainContext*` subtables (all three formats differ only in the match function: glyph, class, coverage) run
+  `match_input`, `match_lookahead`, `match_backtrack` (skipping iterators) and then `apply_lookup`: for every
+  (sequenceIndex, lookupIndex) record, `move_to` the recorded position, `recurse` into the nested lookup, and keep
+  `match_positions` in step with the buffer (delta, shift, fill, fixup); finally `move_to(end)`.  The specification
+  (`Spec.Subst.applySubtableAt … ctxRule`) matches three predicate sequences on the VISIBLE positions after / before the
+  current glyph (`matchSeq` on `visibleFrom` / `visibleBefore`) and applies the records with `applyRecords` / `applyNested`.
+  Lemmas: `Lemmas/GsubCtx*.lean`.  Strings are compared through (glyph id, cluster, FEATURE bits of the mask): a successful
+  match makes `unsafe_to_break` set glyph-flag bits in the masks of the matched span, which the specification — it knows
+  feature bits only — does not describe (same projection as `C06_ligature_subst_flags_partial`).
+
+  Domain (the Spec's documented one) and the guard of the code each hypothesis stands for:
+  * `NoSkipFlags c.lookupProps` — the contextual lookup's flags exclude nothing, so the visible positions are consecutive
+    (`visibleFrom_noSkip`, `visibleBefore_noSkip`); `c.perSyllable = false` (Indic shapers only).
+  * `Plain y` for the unconsumed input (not default-ignorable, no ligature id: `match_input` refuses to match across
+    components of different earlier ligatures) and `CtxG y` for every glyph a matcher may read (in particular the OUT
+    buffer, which `match_backtrack` reads): `unicode_props & 0x20 = 0` (the iterator may skip default-ignorables: HarfBuzz-
+    specific), `gid < 65536` (`GlyphId` is `u16`; the model keeps `Nat` and reduces mod 2^16 where Rust casts), and at
+    least one feature bit in the mask: the `context_match` iterators of backtrack / lookahead test `mask & 0xFFFFFFFF ≠ 0`
+    where the specification tests nothing — every glyph of a shaping run carries the global bit (see `exCtxMask0` below
+    for the disagreement on a zero mask).
+  * `c.lookupMask &&& (U32MAX - Flag.DEFINED) = c.lookupMask` — the lookup mask is made of feature bits (the feature map
+    never allocates the three glyph-flag bits); `c.lookupMask < 2^32`, `c.random = false` as in Part 3 (alternates).
+  * `NestedSts Gr l.subtables` for every nested lookup: its subtables are single / alternate / multiple substitutions (it acts
+    at ONE position and is not itself contextual — one nesting level), no sequence is empty (non-shrinking: `delta ≥ 0`
+    branch of `apply_lookup` only; deleting sequences go through `delete_glyph` and the `delta < 0` branch, not covered), every
+    sequence adds at most `Gr` glyphs, substitute ids fit `u16`, alternate sets have at most 65535 entries.
+  * the three budgets the code consults: `out_len + |input| + |records| · Gr ≤ max_len` (`make_room_for` / `shift_forward`
+    behind `move_to`, `output_glyph`), `n + 1 + |records| · Gr ≤ MAX_CONTEXT_LENGTH` (else `apply_lookup` stops at the first
+    record that would grow the sequence beyond 64 — the specification has no such limit), `|records| ≤ max_ops` (`recurse`
+    spends one unit per record and `apply_lookup` stops at `max_ops ≤ 0`); the nesting budget is the `m + 1` of
+    `recurseAt (m + 1)` (one level is used: nested lookups are not contextual). -/
+namespace RbModel.Gsub
+open RbModel RbModel.Buf RbModel.Spec.Subst
+
+/-- **C06, contextual, step 1a: `match_input` without skippable glyphs is the specification's `matchSeq`** on the visible
+    positions behind the current glyph of the projected string `toG (out ++ in)`, with the lookup's feature required on
+    every input glyph, for ANY match function `fn glyph index` (glyph ids, classes, coverages: `fnPreds fn 0 n` are the
+    predicates `fn · 0, …, fn · (n-1)`).  Same decision; on success the matched positions are consecutive on both sides
+    (`out_len + 1 …` resp. `idx …`) and `match_end` is just behind the last. -/
+theorem C06_context_match_input_refines_spec (c : Ctx) (n : Nat) (fn : Nat → Nat → Bool) (x : Info) (R : List Info)
+    (hinv : Inv c.buf) (hin : inP c.buf = x :: R) (hpl : ∀ y ∈ x :: R, Plain y) (hgid : ∀ y ∈ R, y.gid < 65536)
+    (hp : NoSkipFlags c.lookupProps) (hps : c.perSyllable = false) (hshort : n + 1 ≤ MAX_CONTEXT_LENGTH)
+    (hlmf : c.lookupMask &&& (U32MAX - Flag.DEFINED) = c.lookupMask) :
+    ∃ r, matchInput c n fn [0, 0, 0, 0] = .ok r ∧
+      match matchSeq ((outP c.buf ++ inP c.buf).map toG)
+              (visibleFrom c.font c.lookupProps ((outP c.buf ++ inP c.buf).map toG) (c.buf.outLen + 1))
+              (fnPreds fn 0 n) (some c.lookupMask) with
+      | none => r.ok = false
+      | some ins => r.ok = true ∧ ins = List.range' (c.buf.outLen + 1) n ∧ n ≤ R.length ∧ r.endPos = c.buf.idx + n + 1 ∧
+          n + 1 ≤ r.positions.length ∧ ∀ j, j ≤ n → r.positions[j]? = some (c.buf.idx + j) := by
+  rw [toG_eq_projG]
+  exact matchInput_relF c n fn _ x R hinv hin (RelF.refl _) hpl hgid hp hps hshort hlmf
+
+/-- **C06, contextual, step 1b: `match_lookahead`** behind a matched input of `k` glyphs is `matchSeq` on the visible positions
+    from `out_len + k + 1` on (the Spec's `afterIn`), no feature required. -/
+theorem C06_context_match_lookahead_refines_spec (c : Ctx) (n k : Nat) (fn : Nat → Nat → Bool) (x : Info) (R : List Info)
+    (hinv : Inv c.buf) (hin : inP c.buf = x :: R) (hgl : ∀ y ∈ R, CtxG y)
+    (hp : NoSkipFlags c.lookupProps) (hps : c.perSyllable = false) :
+    ∃ r, matchLookahead c n fn (c.buf.idx + k + 1) = .ok r ∧
+      r.1 = (matchSeq ((outP c.buf ++ inP c.buf).map toG)
+              (visibleFrom c.font c.lookupProps ((outP c.buf ++ inP c.buf).map toG) (c.buf.outLen + k + 1))
+              (fnPreds fn 0 n)).isSome := by
+  rw [toG_eq_projG]
+  exact matchLookahead_relF c n k fn _ x R hinv hin (RelF.refl _) hgl hp hps
+
+/-- **C06, contextual, step 1c: `match_backtrack` reads the OUT buffer**: it is `matchSeq` on the visible positions before
+    `out_len` of the projected string, nearest first (the Spec's `visibleBefore`), no feature required. -/
+theorem C06_context_match_backtrack_refines_spec (c : Ctx) (n : Nat) (fn : Nat → Nat → Bool)
+    (hinv : Inv c.buf) (hgl : ∀ y ∈ outP c.buf, CtxG y) (hp : NoSkipFlags c.lookupProps) (hps : c.perSyllable = false) :
+    ∃ r, matchBacktrack c n fn = .ok r ∧
+      r.1 = (matchSeq ((outP c.buf ++ inP c.buf).map toG)
+              (visibleBefore c.font c.lookupProps ((outP c.buf ++ inP c.buf).map toG) c.buf.outLen)
+              (fnPreds fn 0 n)).isSome ∧ r.2 ≤ c.buf.outLen := by
+  rw [toG_eq_projG]
+  exact matchBacktrack_relF c n fn _ hinv (RelF.refl _) hgl hp hps
+
+/-- **C06, contextual, step 2: `apply_lookup` (the nested-record loop) on a match equals `Spec.Subst.applyRecords`.**  On any
+    in/out buffer state, for a match of `n + 1` consecutive glyphs at the current position (`match_positions[j] = idx + j`,
+    `match_end = idx + n + 1`) and records whose nested lookups are single-position and non-shrinking, inside the three
+    budgets: `apply_lookup` does not panic and is not refused; the new string is — in glyph ids, clusters and feature bits —
+    the specification's `applyRecords` on the projected string `toG (out ++ in)` with the sequence positions
+    `out_len, …, out_len + n` (= the buffer positions shifted by `out_len − idx`); the cursor ends behind the grown match:
+    the new `out_len` is the old match end plus the growth, and it is the Spec's last sequence position + 1; the unconsumed
+    input behind the match is untouched. -/
+theorem C06_context_records_refine_spec (m : Nat) (c : Ctx) (n : Nat) (P : List Nat) (recs : List Rec)
+    (x : Info) (R : List Info) (Gr : Nat)
+    (hinv : Inv c.buf) (hsu : c.buf.successful = true) (hin : inP c.buf = x :: R) (hn : n ≤ R.length)
+    (hglyph : ∀ y ∈ outP c.buf ++ inP c.buf, CtxG y)
+    (hP : n + 1 ≤ P.length) (hPj : ∀ j, j ≤ n → P[j]? = some (c.buf.idx + j))
+    (hlm : c.lookupMask < 2 ^ 32) (hlmf : c.lookupMask &&& (U32MAX - Flag.DEFINED) = c.lookupMask) (hrnd : c.random = false)
+    (hnest : ∀ r ∈ recs, ∀ l, c.font.lookups[r.2]? = some l → NestedSts Gr l.subtables)
+    (hbud : c.buf.outLen + (inP c.buf).length + recs.length * Gr ≤ c.buf.maxLen)
+    (hctx : n + 1 + recs.length * Gr ≤ MAX_CONTEXT_LENGTH) (hops : (recs.length : Int) ≤ c.buf.maxOps) :
+    ∃ b', applyLookup (recurseAt (m + 1)) c n P (c.buf.idx + n + 1) recs = .ok { c with buf := b' } ∧ Inv b' ∧
+      b'.successful = true ∧
+      (outP b' ++ inP b').map (fun y => (y.gid, y.cluster, featBits y.mask))
+        = (applyRecords c.font c.lookupMask recs ((outP c.buf ++ inP c.buf).map toG) (List.range' c.buf.outLen (n + 1))).1.map
+            (fun g => (g.gid, g.cluster, featBits g.mask)) ∧
+      b'.outLen + (outP c.buf ++ inP c.buf).length = c.buf.outLen + n + 1 +
+        (applyRecords c.font c.lookupMask recs ((outP c.buf ++ inP c.buf).map toG) (List.range' c.buf.outLen (n + 1))).1.length ∧
+      (applyRecords c.font c.lookupMask recs ((outP c.buf ++ inP c.buf).map toG) (List.range' c.buf.outLen (n + 1))).2.getLast?
+        = some (b'.outLen - 1) ∧ 0 < b'.outLen ∧ inP b' = R.drop n := by
+  rw [toG_eq_projG]
+  obtain ⟨b', hrun, hinv', hsu', hrel', hlen', hlast', hpos', hin', _, _, _, _⟩ :=
+    applyLookup_sim C06_gen_buffer_variants.2 C06_gen_buffer_variants.1 m c n P recs _ x R Gr hinv hsu hin hn (RelF.refl _)
+      hglyph hP hPj hlm hlmf hrnd hnest hbud hctx hops
+  refine ⟨b', hrun, hinv', hsu', hrel', ?_, hlast', hpos', hin'⟩
+  rw [← hlen']; simp
+
+/-! non-vacuity.  Font: lookup 0 = one ChainContext format 3 rule — backtrack [9], input [1] [2], lookahead [3], records
+    (0 → lookup 1), (2 → lookup 2); lookup 1 = multiple substitution 1 → 11 12 13 (grows 1 → 3); lookup 2 = single
+    substitution 13 → 20: the SECOND record addresses sequence index 2, which after the growth is the ADDED glyph 13 (not the
+    original second input glyph 2).  Text `9 1 2 3 | 9 1 2 4`: the first rule instance fires, the second has a FAILED
+    lookahead (4 is not 3) and nothing changes.  Feature bit 8; all glyphs carry it. -/
+def exCtxFont : Font :=
+  { lookups := [ { props := 0, subtables := [.chain3 [[9]] [[1], [2]] [[3]] [(0, 1), (2, 2)]] },
+                 { props := 0, subtables := [.multiple [1] [[11, 12, 13]]] },
+                 { props := 0, subtables := [.single1 [13] 7] },
+                 { props := 0, subtables := [.single1 [1] 30] },
+                 { props := 0, subtables := [.single1 [1] 40] },
+                 { props := 0, subtables := [.context1 [1] [[⟨[2], [(0, 3)]⟩, ⟨[2, 3], [(0, 4)]⟩]]] } ] }
+def exCtxInfo : List Info :=
+  [⟨9,8,0,0,0⟩, ⟨1,8,1,0,0⟩, ⟨2,8,2,0,0⟩, ⟨3,8,3,0,0⟩, ⟨9,8,4,0,0⟩, ⟨1,8,5,0,0⟩, ⟨2,8,6,0,0⟩, ⟨4,8,7,0,0⟩]
+def exCtxCtx : Ctx :=
+  { font := exCtxFont, lookupMask := 8, buf := { info := exCtxInfo, out := List.replicate 8 {}, len := 8 } }
+def exCtxLookup : Lookup := { props := 0, subtables := [.chain3 [[9]] [[1], [2]] [[3]] [(0, 1), (2, 2)]] }
+
+example : ∀ y ∈ exCtxInfo, CtxG y ∧ Plain y := by decide
+example : NestedSts 2 [.multiple [1] [[11, 12, 13]]] ∧ NestedSts 2 [.single1 [13] 7] := by
+  refine ⟨⟨by decide, ?_, ?_⟩, ⟨by decide, ?_, ?_⟩⟩
+  · intro st hst cov alts he; simp only [List.mem_singleton] at hst; subst hst; cases he
+  · intro st hst ss hss; simp only [List.mem_singleton] at hst; subst hst
+    simp only [Subtable.seqsOf, List.mem_singleton] at hss; subst hss; decide
+  · intro st hst cov alts he; simp only [List.mem_singleton] at hst; subst hst; cases he
+  · intro st hst ss hss; simp only [List.mem_singleton] at hst; subst hst
+    simp only [Subtable.seqsOf, List.not_mem_nil] at hss
+/-- the interpreter: `9 1 2 3 9 1 2 4` ↦ `9 11 12 20 2 3 9 1 2 4` (clusters of the added glyphs = cluster of the glyph they
+    replace) -/
+example : (match applyString exCtxCtx exCtxLookup 8 with
+    | .ok c' => (c'.buf.info.take c'.buf.len).map (fun x => (x.gid, x.cluster, featBits x.mask)) ==
+        [(9,0,8), (11,1,8), (12,1,8), (20,1,8), (2,2,8), (3,3,8), (9,4,8), (1,5,8), (2,6,8), (4,7,8)]
+    | .error _ => false) = true := by decide
+/-- the specification: the same string -/
+example : (applyLookupFwd exCtxFont 0 exCtxLookup 8 8 (exCtxInfo.map toG) 0).map (fun g => (g.gid, g.cluster, featBits g.mask))
+    = [(9,0,8), (11,1,8), (12,1,8), (20,1,8), (2,2,8), (3,3,8), (9,4,8), (1,5,8), (2,6,8), (4,7,8)] := by decide
+/-- … and the specification's resume index after the grown match is 5 = the interpreter's new `out_len` -/
+example : (applySubtableAt exCtxFont 0 0 8 (.chain3 [[9]] [[1], [2]] [[3]] [(0, 1), (2, 2)]) (exCtxInfo.map toG) 1).map (·.2)
+    = some 5 := by decide
+/-- the matchers on the state "9 out, 1 2 3 … to come": input [2] matches, lookahead [3] matches, backtrack [9] matches;
+    lookahead [4] fails on both sides -/
+def exCtxStepBuf : Buf :=
+  { info := exCtxInfo, out := [⟨9,8,0,0,0⟩, {}, {}, {}, {}, {}, {}, {}], idx := 1, len := 8, outLen := 1,
+    haveOutput := true, sepOut := true }
+def exCtxStepCtx : Ctx := { font := exCtxFont, lookupMask := 8, buf := exCtxStepBuf }
+example : Inv exCtxStepBuf := ⟨by decide, by decide, by decide, by decide, by decide, by decide⟩
+example : (match matchInput exCtxStepCtx 1 (fun g i => nthCov [[2]] i g) [0, 0, 0, 0] with
+    | .ok r => (r.ok, r.endPos, r.positions.take 2) == (true, 3, [1, 2]) | .error _ => false) = true := by decide
+example : matchSeq ((outP exCtxStepBuf ++ inP exCtxStepBuf).map toG)
+    (visibleFrom exCtxFont 0 ((outP exCtxStepBuf ++ inP exCtxStepBuf).map toG) 2) (fnPreds (fun g i => nthCov [[2]] i g) 0 1) (some 8)
+    = some [2] := by decide
+example : (match matchLookahead exCtxStepCtx 1 (fun g i => nthCov [[4]] i g) 3 with
+    | .ok r => r.1 == false | .error _ => false) = true := by decide
+example : (matchSeq ((outP exCtxStepBuf ++ inP exCtxStepBuf).map toG)
+    (visibleFrom exCtxFont 0 ((outP exCtxStepBuf ++ inP exCtxStepBuf).map toG) 3) (fnPreds (fun g i => nthCov [[4]] i g) 0 1)).isSome
+    = false := by decide
+example : (match matchBacktrack exCtxStepCtx 1 (fun g i => nthCov [[9]] i g) with
+    | .ok r => r == (true, 0) | .error _ => false) = true := by decide
+/-- `apply_lookup` on that match: records (0 → lookup 1), (2 → lookup 2) -/
+example : (match applyLookup (recurseAt 64) exCtxStepCtx 1 [1, 2, 0, 0] 3 [(0, 1), (2, 2)] with
+    | .ok c' => ((outP c'.buf ++ inP c'.buf).map (·.gid), c'.buf.outLen) == ([9, 11, 12, 20, 2, 3, 9, 1, 2, 4], 5)
+    | .error _ => false) = true := by decide
+example : (applyRecords exCtxFont 8 [(0, 1), (2, 2)] ((outP exCtxStepBuf ++ inP exCtxStepBuf).map toG) [1, 2]).1.map (·.gid)
+    = [9, 11, 12, 20, 2, 3, 9, 1, 2, 4] ∧
+    (applyRecords exCtxFont 8 [(0, 1), (2, 2)] ((outP exCtxStepBuf ++ inP exCtxStepBuf).map toG) [1, 2]).2 = [1, 2, 3, 4] := by decide
+
+/-! two rules where the ORDER matters (Context format 1, lookup 5): "1 2" (→ 31) is listed before "1 2 3" (→ 41) and shadows it -/
+def exCtxLookup5 : Lookup := { props := 0, subtables := [.context1 [1] [[⟨[2], [(0, 3)]⟩, ⟨[2, 3], [(0, 4)]⟩]]] }
+example : (match applyString exCtxCtx exCtxLookup5 8 with
+    | .ok c' => (c'.buf.info.take c'.buf.len).map (·.gid) == [9, 31, 2, 3, 9, 31, 2, 4] | .error _ => false) = true := by decide
+example : (applyLookupFwd exCtxFont 0 exCtxLookup5 8 8 (exCtxInfo.map toG) 0).map (·.gid) = [9, 31, 2, 3, 9, 31, 2, 4] := by decide
+
+/-! the mask hypothesis of `CtxG` is not idle (`exCtxMask0`): a BACKTRACK glyph whose mask is 0 — `match_backtrack`'s iterator
+    (mask 0xFFFFFFFF) does not match it, the rule does not fire; the specification asks nothing of context glyphs and fires.
+    (No glyph of a shaping run has mask 0: `hb_ot_map_t` gives every glyph the global bit.) -/
+def exCtxMask0 : Ctx :=
+  { font := exCtxFont, lookupMask := 8,
+    buf := { info := [⟨9,0,0,0,0⟩, ⟨1,8,1,0,0⟩, ⟨2,8,2,0,0⟩, ⟨3,8,3,0,0⟩], out := List.replicate 4 {}, len := 4 } }
+example : (match applyString exCtxMask0 exCtxLookup 4 with
+    | .ok c' => (c'.buf.info.take c'.buf.len).map (·.gid) == [9, 1, 2, 3] | .error _ => false) = true := by decide
+example : (applyLookupFwd exCtxFont 0 exCtxLookup 8 4 ((exCtxMask0.buf.info.take 4).map toG) 0).map (·.gid)
+    = [9, 11, 12, 20, 2, 3] := by decide
+
+/-! ### Part 7, steps 3 and 4: one contextual subtable at the current glyph, and the whole forward scan
+
+  `CtxStOk f Gr Rn st`: `st` is one of the six contextual subtable kinds (Context / ChainContext formats 1, 2, 3) and every
+  rule `(n, recs)` of it (`Subtable.ctxRules`: `n` input glyphs behind the first) satisfies `RuleOk f Gr Rn n recs`:
+  `n + 1 + |recs| · Gr ≤ MAX_CONTEXT_LENGTH`, `|recs| ≤ Rn`, every nested lookup `NestedSts Gr`.
+  `CtxInv l lm K Rn c` is the invariant of the scan (Lemmas/GsubCtxStep.lean), all of it decidable: the buffer invariant `Inv`,
+  `successful`, `lookup_props = l.props`, `lookup_mask = lm`, not per-syllable, `PRODUCE_UNSAFE_TO_CONCAT` off (else every FAILED
+  match flags the inspected glyphs), `random = false`, `Plain` for the unconsumed input, `CtxG` for every glyph of `out ++ in`,
+  and the two budget potentials `out_len + |in| · (1 + K) ≤ max_len`, `|in| · Rn ≤ max_ops` with `K = Rn · Gr`: every application
+  consumes at least one input glyph, adds at most `K` glyphs and spends at most `Rn` operations. -/
+
+/-- **C06, contextual, step 3: one application of a contextual subtable at the current glyph = `Spec.Subst.applySubtableAt`**, for
+    each of the six subtable kinds, on every state of the scan: same decision (coverage of the first glyph, rule set by glyph /
+    class, FIRST matching rule wins, the three sequences matched on the visible positions; a declined application leaves the
+    context untouched), and on success the new string — glyph ids, clusters, feature bits — is the specification's, the new
+    `out_len` is the specification's resume index, and the scan invariant holds again.  (`unsafe_to_break` /
+    `unsafe_to_break_from_outbuffer` between match and `apply_lookup` never panic and touch glyph-flag bits only.) -/
+theorem C06_context_subtable_refines_spec (l : Lookup) (hp : NoSkipFlags l.props) (Gr Rn level : Nat) (st : Subtable) (c : Ctx)
+    (hok : CtxStOk c.font Gr Rn st) (hlm : c.lookupMask < 2 ^ 32)
+    (hlmf : c.lookupMask &&& (U32MAX - Flag.DEFINED) = c.lookupMask)
+    (x : Info) (R : List Info) (h : CtxInv l c.lookupMask (Rn * Gr) Rn c) (hin : inP c.buf = x :: R) :
+    match applySubtableAt c.font level l.props c.lookupMask st ((outP c.buf ++ inP c.buf).map toG) c.buf.outLen with
+    | none => applySubtable (recurseAt MAX_NESTING_LEVEL) true c st = .ok (c, false)
+    | some (gs', nxt) => ∃ b', applySubtable (recurseAt MAX_NESTING_LEVEL) true c st = .ok ({ c with buf := b' }, true) ∧
+        (outP b' ++ inP b').map (fun y => (y.gid, y.cluster, featBits y.mask)) = gs'.map (fun g => (g.gid, g.cluster, featBits g.mask)) ∧
+        b'.outLen = nxt ∧ c.buf.outLen < nxt ∧ CtxInv l c.lookupMask (Rn * Gr) Rn { c with buf := b' } := by
+  rw [toG_eq_projG]
+  have hs : SubSimC (recurseAt MAX_NESTING_LEVEL) true c.font l c.lookupMask level (Rn * Gr) Rn st :=
+    ctx_subSimC C06_gen_buffer_variants.2 C06_gen_buffer_variants.1 63 true c.font l hp c.lookupMask Gr Rn level hlm hlmf st hok
+  have := hs c x R _ rfl h hin (RelF.refl _)
+  cases hr : applySubtableAt c.font level l.props c.lookupMask st ((outP c.buf ++ inP c.buf).map projG) c.buf.outLen with
+  | none => rw [hr] at this; exact this
+  | some p =>
+    obtain ⟨gs', nxt⟩ := p
+    rw [hr] at this
+    obtain ⟨b', hres, hI, hrel, hol, hlt, _⟩ := this
+    exact ⟨b', hres, hrel, hol, hlt, hI⟩
+
+/-- **C06, contextual substitution (partial: the three glyph-flag bits of the masks are left out)**: for every font, every forward
+    lookup whose subtables are contextual subtables of the Spec's domain (`CtxStOk`: any mix of the six kinds) and whose flags
+    exclude nothing, every lookup mask made of feature bits, and every well-formed buffer of plain glyphs, the streaming
+    interpreter (`apply_string`: forward scan, matchers, `apply_lookup` with its nested lookups, `sync`) succeeds and yields
+    exactly the glyph string of the OpenType model in glyph ids, clusters and FEATURE bits, for every fuel (the two scans take
+    their steps in lockstep).  Outside the Spec's documented domain remain: (a) the glyph-flag bits — a successful match sets
+    `unsafe_to_break` / `unsafe_to_concat` in the masks of the matched span, which the specification does not describe (hence
+    `_partial`, as `C06_ligature_subst_flags_partial`); (b) `CtxG`'s "every glyph has a feature bit" (true of every shaping run:
+    the global bit; `exCtxMask0` shows it is needed).  The budgets: `len · (1 + Rn · Gr) ≤ max_len` and `len · Rn ≤ max_ops`
+    (satisfied by the crate's own budgets `max_len ≥ 64 · len`, `max_ops ≥ 1024 · len` whenever `Rn · Gr ≤ 63`). -/
+theorem C06_context_subst_refines_spec_partial (l : Lookup) (Gr Rn : Nat) (c : Ctx)
+    (hall : ∀ st ∈ l.subtables, CtxStOk c.font Gr Rn st) (hp : NoSkipFlags l.props) (fuel : Nat)
+    (hlm : c.lookupMask < 2 ^ 32) (hlmf : c.lookupMask &&& (U32MAX - Flag.DEFINED) = c.lookupMask)
+    (hrnd : c.random = false) (hps : c.perSyllable = false)
+    (hfl : c.buf.flags &&& Gen.Buf.produceUnsafeToConcat = 0)
+    (hsu : c.buf.successful = true) (hlen : c.buf.len ≤ c.buf.info.length) (hout : c.buf.out.length = c.buf.info.length)
+    (hbud : c.buf.len * (1 + Rn * Gr) ≤ c.buf.maxLen) (hops : (((c.buf.len * Rn : Nat)) : Int) ≤ c.buf.maxOps)
+    (hgl : ∀ x ∈ c.buf.info.take c.buf.len, Plain x ∧ CtxG x) :
+    ∃ c', applyString c l fuel = .ok c' ∧ c'.buf.successful = true ∧ c'.buf.len ≤ c'.buf.info.length ∧
+      (c'.buf.info.take c'.buf.len).map (fun x => (x.gid, x.cluster, featBits x.mask))
+        = (applyLookupFwd c.font c.buf.level l c.lookupMask fuel ((c.buf.info.take c.buf.len).map toG) 0).map
+            (fun g => (g.gid, g.cluster, featBits g.mask)) := by
+  rw [toG_eq_projG]
+  exact applyString_simC l (ctx_not_reverse l (fun st hst => (hall st hst).1)) hp C06_gen_buffer_variants.2 c (Rn * Gr) Rn hlmf
+    (fun st hst => ctx_subSimC C06_gen_buffer_variants.2 C06_gen_buffer_variants.1 63 true c.font l hp c.lookupMask Gr Rn
+      c.buf.level hlm hlmf st (hall st hst))
+    fuel hrnd hps hfl hsu hlen hout hbud hops hgl
+
+/-! non-vacuity of steps 3 and 4: the chain format 3 lookup and the two-rule Context format 1 lookup of `exCtxFont` above
+    satisfy `CtxStOk exCtxFont 2 2`; `exCtxCtx` satisfies the buffer hypotheses (the run and the specification's string are the
+    `decide` examples above: `9 11 12 20 2 3 9 1 2 4`, resume index 5; `9 31 2 3 9 31 2 4`) -/
+def exCtx_nested (idx : Nat) (hidx : idx = 1 ∨ idx = 2 ∨ idx = 3 ∨ idx = 4) (l : Lookup)
+    (hl : exCtxFont.lookups[idx]? = some l) : NestedSts 2 l.subtables := by
+  rcases hidx with rfl | rfl | rfl | rfl <;> (simp only [exCtxFont] at hl; cases hl) <;>
+    (refine ⟨by decide, ?_, ?_⟩
+     · intro st hst cov alts he; simp only [List.mem_singleton] at hst; subst hst; cases he
+     · intro st hst ss hss; simp only [List.mem_singleton] at hst; subst hst
+       simp only [Subtable.seqsOf, List.mem_singleton, List.not_mem_nil] at hss
+       try (first | (subst hss; decide) | exact absurd hss id))
+example : ∀ st ∈ exCtxLookup.subtables, CtxStOk exCtxFont 2 2 st := by
+  intro st hst
+  simp only [exCtxLookup, List.mem_singleton] at hst
+  subst hst
+  refine ⟨rfl, ?_⟩
+  intro p hp
+  simp only [Subtable.ctxRules, List.mem_singleton] at hp
+  subst hp
+  refine ⟨by decide, by decide, ?_⟩
+  intro r hr l hl
+  simp only [List.mem_cons, List.not_mem_nil, or_false] at hr
+  rcases hr with rfl | rfl
+  · exact exCtx_nested 1 (Or.inl rfl) l hl
+  · exact exCtx_nested 2 (Or.inr (Or.inl rfl)) l hl
+example : ∀ st ∈ exCtxLookup5.subtables, CtxStOk exCtxFont 2 2 st := by
+  intro st hst
+  simp only [exCtxLookup5, List.mem_singleton] at hst
+  subst hst
+  refine ⟨rfl, ?_⟩
+  intro p hp
+  simp only [Subtable.ctxRules, List.flatMap_cons, List.flatMap_nil, List.map_cons, List.map_nil, List.append_nil,
+    List.mem_cons, List.not_mem_nil, or_false] at hp
+  rcases hp with rfl | rfl
+  · refine ⟨by decide, by decide, ?_⟩
+    intro r hr l hl
+    simp only [List.mem_singleton] at hr
+    subst hr
+    exact exCtx_nested 3 (Or.inr (Or.inr (Or.inl rfl))) l hl
+  · refine ⟨by decide, by decide, ?_⟩
+    intro r hr l hl
+    simp only [List.mem_singleton] at hr
+    subst hr
+    exact exCtx_nested 4 (Or.inr (Or.inr (Or.inr rfl))) l hl
+example : NoSkipFlags exCtxLookup.props ∧ exCtxCtx.lookupMask < 2 ^ 32 ∧
+    exCtxCtx.lookupMask &&& (U32MAX - Flag.DEFINED) = exCtxCtx.lookupMask ∧ exCtxCtx.random = false ∧
+    exCtxCtx.perSyllable = false ∧ exCtxCtx.buf.flags &&& Gen.Buf.produceUnsafeToConcat = 0 ∧
+    exCtxCtx.buf.len * (1 + 2 * 2) ≤ exCtxCtx.buf.maxLen ∧ (((exCtxCtx.buf.len * 2 : Nat)) : Int) ≤ exCtxCtx.buf.maxOps ∧
+    exCtxCtx.buf.out.length = exCtxCtx.buf.info.length := by decide
+/-- the scan invariant on the mid-scan state `exCtxStepCtx` ("9" out, "1 2 3 …" to come), and the step on it -/
+example : CtxInv exCtxLookup 8 (2 * 2) 2 exCtxStepCtx :=
+  ⟨⟨by decide, by decide, by decide, by decide, by decide, by decide⟩, by decide, by decide, by decide, by decide, by decide,
+    by decide, by decide, by decide, by decide, by decide⟩
+example : (match applySubtable (recurseAt MAX_NESTING_LEVEL) true exCtxStepCtx (.chain3 [[9]] [[1], [2]] [[3]] [(0, 1), (2, 2)]) with
+    | .ok (c', ok) => (ok, (outP c'.buf ++ inP c'.buf).map (·.gid), c'.buf.outLen) == (true, [9, 11, 12, 20, 2, 3, 9, 1, 2, 4], 5)
+    | .error _ => false) = true := by decide
+
+/-- **C06, lookups mixing contextual subtables with single / alternate / multiple substitution subtables (partial: glyph-flag
+    bits left out, ligature subtables not in the mix).**  The model's `Lookup` and the specification's `firstSubtable` allow
+    subtables of different kinds in one lookup (OpenType itself does not).  For a lookup each of whose subtables is contextual
+    (`CtxStOk`) or simple with non-empty sequences of at most `Rn · Gr + 1` glyphs and 16-bit ids (`NestedSts (Rn · Gr) [st]`),
+    the first subtable that applies at a glyph decides, exactly as in the OpenType model; hypotheses as in
+    `C06_context_subst_refines_spec_partial` (the potential `len · (1 + Rn · Gr) ≤ max_len` also pays for a top-level multiple
+    substitution). -/
+theorem C06_context_mixed_partial (l : Lookup) (Gr Rn : Nat) (c : Ctx)
+    (hall : ∀ st ∈ l.subtables, MixStOk c.font Gr Rn st) (hp : NoSkipFlags l.props) (fuel : Nat)
+    (hlm : c.lookupMask < 2 ^ 32) (hlmf : c.lookupMask &&& (U32MAX - Flag.DEFINED) = c.lookupMask)
+    (hrnd : c.random = false) (hps : c.perSyllable = false)
+    (hfl : c.buf.flags &&& Gen.Buf.produceUnsafeToConcat = 0)
+    (hsu : c.buf.successful = true) (hlen : c.buf.len ≤ c.buf.info.length) (hout : c.buf.out.length = c.buf.info.length)
+    (hbud : c.buf.len * (1 + Rn * Gr) ≤ c.buf.maxLen) (hops : (((c.buf.len * Rn : Nat)) : Int) ≤ c.buf.maxOps)
+    (hgl : ∀ x ∈ c.buf.info.take c.buf.len, Plain x ∧ CtxG x) :
+    ∃ c', applyString c l fuel = .ok c' ∧ c'.buf.successful = true ∧ c'.buf.len ≤ c'.buf.info.length ∧
+      (c'.buf.info.take c'.buf.len).map (fun x => (x.gid, x.cluster, featBits x.mask))
+        = (applyLookupFwd c.font c.buf.level l c.lookupMask fuel ((c.buf.info.take c.buf.len).map toG) 0).map
+            (fun g => (g.gid, g.cluster, featBits g.mask)) := by
+  rw [toG_eq_projG]
+  refine applyString_simC l (mix_not_reverse c.font Gr Rn l hall) hp C06_gen_buffer_variants.2 c (Rn * Gr) Rn hlmf ?_
+    fuel hrnd hps hfl hsu hlen hout hbud hops hgl
+  intro st hst
+  rcases hall st hst with h | h
+  · exact ctx_subSimC C06_gen_buffer_variants.2 C06_gen_buffer_variants.1 63 true c.font l hp c.lookupMask Gr Rn
+      c.buf.level hlm hlmf st h
+  · exact simple_subSimC C06_gen_buffer_variants.2 _ true c.font l c.lookupMask c.buf.level (Rn * Gr) Rn hlm hlmf st h
+
+/-! non-vacuity: a lookup with the chain format 3 subtable FIRST and a multiple substitution 1 → 11 12 13 behind it: at the first
+    "1" (backtrack 9 present) the contextual rule fires; at the second "1" (lookahead fails) the multiple substitution applies -/
+def exCtxMixLookup : Lookup :=
+  { props := 0, subtables := [.chain3 [[9]] [[1], [2]] [[3]] [(0, 1), (2, 2)], .multiple [1] [[11, 12, 13]]] }
+example : (match applyString exCtxCtx exCtxMixLookup 8 with
+    | .ok c' => (c'.buf.info.take c'.buf.len).map (·.gid) == [9, 11, 12, 20, 2, 3, 9, 11, 12, 13, 2, 4] | .error _ => false) = true := by
+  decide
+example : (applyLookupFwd exCtxFont 0 exCtxMixLookup 8 8 (exCtxInfo.map toG) 0).map (·.gid)
+    = [9, 11, 12, 20, 2, 3, 9, 11, 12, 13, 2, 4] := by decide
+example : NestedSts (2 * 2) [.multiple [1] [[11, 12, 13]]] := by
+  refine ⟨by decide, ?_, ?_⟩
+  · intro st hst cov alts he; simp only [List.mem_singleton] at hst; subst hst; cases he
+  · intro st hst ss hss; simp only [List.mem_singleton] at hst; subst hst
+    simp only [Subtable.seqsOf, List.mem_singleton] at hss; subst hss; decide
+
+/-! ### Part 7 — NOT PROVED (nothing below is claimed)
+
+  (5a) LIGATURE subtables in a lookup that also has contextual subtables: the `SubSimC` instance is missing (it needs `CtxG` —
+       the unicode props of the ligature glyph — and the cluster hypotheses of Part 5 through `ligate_input`).
+  (5b) ignore flags on the contextual lookup or default-ignorable glyphs: the skipping iterator as a filter on visibility
+       (`visibleFrom` / `visibleBefore` of the Spec); `match_positions` are then not consecutive.
+  (5c) nested lookups that shrink the string (empty sequences: the `delta < 0` branch of `apply_lookup`) or that are
+       themselves contextual (more than one nesting level).
+  (5d) the glyph-flag bits of the masks (no specification of `unsafe_to_break` on the Spec side). -/
 
 end RbModel.Gsub
